@@ -193,6 +193,12 @@ def convert(src):
                         facts.vars[(nm,lineno)]=ct+(''.join('[%s]'%d for d in dims))
                         if default is not None:
                             stmts.append(f"{nm} = {' '.join(rewrite_expr_tokens(default, known_types))}")
+                        else:
+                            full = ct+(''.join('[%s]'%d for d in dims))
+                            ext = re.findall(r'\[\s*([^\]\[:]+?)\s*\]', full)
+                            if ext and '::' not in full and ':' not in full and '*' not in full:
+                                base_t = full.split('[')[0].strip()
+                                stmts.append(f"{nm} = __carray__({base_t!r}, {', '.join(ext)})")
                     text='; '.join(stmts) if stmts else 'pass'
         elif first=='def' or first=='async':
             # python def with typed params
